@@ -22,7 +22,7 @@ RULE = ("seeded random (brightness in {0,tiny,random,1}, purity in (0.5,1] incl.
         "in {0,random,1}, threshold in {0,small,large}) x inputs (gaps, bunched, herald photons, <=4 photons) x "
         "lossless/lossy circuits x both backends; distinct = (which parameters are non-ideal, bunched?, photons, "
         "lossy?, backend, threshold?, heralded?); non-trivial = at least one non-ideal parameter")
-MANDATORY = ["all_three_nonideal_3photons", "bunched_impure", "lossy_dim", "threshold", "slos", "permanent",
+MANDATORY = ["two_bunched_modes_dim_imperfect", "all_three_nonideal_3photons", "bunched_impure", "lossy_dim", "threshold", "slos", "permanent",
              "g2_checked", "hom_checked", "perfect_checked", "classical_checked", "herald_photons",
              "source_retuned_by_tiny_amount", "dim_source_3photons", "sampler_moved_to_other_input_herald"]
 DECIDING = ["mon.source_stats_postconditions", "mon.sampler_source_postconditions"]
@@ -160,8 +160,19 @@ def run(ctx):
         nph = int(rng.integers(0, max_ph + 1))
         nph = max(0, min(nph, max_ph - hph))
         occ = random_state(rng, k, nph)
+        if k >= 2 and hph == 0 and u.shape[0] <= 5 and rng.random() < 0.12:
+            # directed: two (or more) modes that each hold several photons - emission outcomes that differ only in
+            # *which* bunched mode lost a photon must stay distinct
+            occ = [0] * k
+            a_, b_ = rng.choice(k, size=2, replace=False)
+            occ[int(a_)], occ[int(b_)] = 2, int(rng.choice([2, 2, 3])) if u.shape[0] <= 4 else 2
         full_occ = insert_heralds(occ, c.heralds["input"])
         br, pu, ind, thr = pick_source(rng)
+        if sorted(full_occ, reverse=True)[1:2] >= [2]:
+            if br == 1 or (pu == 1 and ind == 1):
+                br, pu, ind = float(rng.uniform(0.3, 0.95)), float(rng.choice([1.0, rng.uniform(0.6, 0.99)])), float(rng.uniform(0.2, 0.95))
+            if br < 1 and (pu < 1 or ind < 1):
+                ctx.bucket("two_bunched_modes_dim_imperfect")
         backend = str(rng.choice(["permanent", "slos"]))
         case = {"circuit": log, "input": occ, "source": {"brightness": br, "purity": pu,
                 "indistinguishability": ind, "threshold": thr}, "backend": backend}
